@@ -14,13 +14,17 @@
 package simrt
 
 import (
+	"bytes"
 	"fmt"
 	"hash/fnv"
 	"math/rand"
+	"runtime"
 	"runtime/debug"
 	"sort"
+	"strconv"
 	"strings"
 	"sync"
+	"sync/atomic"
 	"time"
 )
 
@@ -65,6 +69,7 @@ const (
 	stBlocked
 	stDone
 	stExternal // waiting for something outside the system (a peer that stopped sending)
+	stChan     // inside a real channel operation (possibly parked in the Go runtime)
 )
 
 // Task is one simulated thread of control.
@@ -80,6 +85,8 @@ type Task struct {
 	holding   map[string]int
 	Panic     interface{}
 	Stack     string
+	gid       int64 // goroutine id, for the channel fallback
+	chanEnd   int32 // set (atomically) when the task has left its channel operation
 }
 
 type abortT struct{}
@@ -126,6 +133,10 @@ type Sim struct {
 	boltMu      Mutex
 	BlockedRW   int64 // probe: RLock blocked by a pending writer
 	BlockedLock int64 // probe: Lock/RLock had to wait
+	ChanOps     int64 // probe: real channel operations bracketed by ChanBegin/ChanEnd
+
+	gidMu sync.Mutex
+	byGID map[int64]*Task
 }
 
 // active is the simulation instrumented code talks to.  Only the baton holder
@@ -183,6 +194,13 @@ func (s *Sim) Spawn(name string, f func()) *Task {
 	}
 	s.tasks = append(s.tasks, t)
 	go func() {
+		t.gid = curGID()
+		s.gidMu.Lock()
+		if s.byGID == nil {
+			s.byGID = map[int64]*Task{}
+		}
+		s.byGID[t.gid] = t
+		s.gidMu.Unlock()
 		<-t.wake
 		if !s.aborted {
 			func() {
@@ -333,6 +351,7 @@ func (s *Sim) point(kind Kind, site string) {
 }
 
 func (s *Sim) runnable(except *Task) []*Task {
+	s.promoteChan()
 	var out []*Task
 	for _, x := range s.tasks {
 		if x != except && x.state == stRunnable {
@@ -343,6 +362,7 @@ func (s *Sim) runnable(except *Task) []*Task {
 }
 
 func (s *Sim) pctBest(except *Task) *Task {
+	s.promoteChan()
 	var best *Task
 	for _, x := range s.tasks {
 		if x != except && x.state == stRunnable && (best == nil || x.prio > best.prio) {
@@ -475,6 +495,9 @@ func (s *Sim) block(t *Task, on string) {
 // the system is wedged behind the stalled peer; with no external waiter at
 // all it is a deadlock.  It returns the task to run next or aborts the run.
 func (s *Sim) noRunnable() *Task {
+	if x := s.waitChan(); x != nil {
+		return x
+	}
 	var ext *Task
 	blocked := false
 	for _, x := range s.tasks {
@@ -483,7 +506,7 @@ func (s *Sim) noRunnable() *Task {
 			if ext == nil {
 				ext = x
 			}
-		case stBlocked:
+		case stBlocked, stChan:
 			blocked = true
 		}
 	}
@@ -544,6 +567,8 @@ func (s *Sim) waitGraph() string {
 			}
 			sort.Strings(held)
 			fmt.Fprintf(&b, "task %d (%s) waits for %s holding %v; ", x.ID, x.Name, x.blockedOn, held)
+		case stChan:
+			fmt.Fprintf(&b, "task %d (%s) waits in a channel operation at %s; ", x.ID, x.Name, x.blockedOn)
 		case stDone:
 			fmt.Fprintf(&b, "task %d done; ", x.ID)
 		default:
@@ -559,6 +584,11 @@ func (s *Sim) exit(t *Task) {
 		// tear-down chain: release the parked tasks one at a time so that
 		// harness code never runs concurrently.
 		for _, x := range s.tasks {
+			if x.state == stChan && atomic.LoadInt32(&x.chanEnd) == 0 {
+				// parked inside the Go runtime on a channel nobody will serve:
+				// it cannot be unwound; the goroutine is abandoned
+				x.state = stDone
+			}
 			if x.state != stDone {
 				s.cur = x
 				x.state = stRunnable
@@ -572,6 +602,9 @@ func (s *Sim) exit(t *Task) {
 	t.idx++
 	next := s.pick(t)
 	if next == nil {
+		next = s.waitChan()
+	}
+	if next == nil {
 		alldone, ext, blocked := true, (*Task)(nil), false
 		for _, x := range s.tasks {
 			if x.state != stDone {
@@ -580,7 +613,7 @@ func (s *Sim) exit(t *Task) {
 			if x.state == stExternal && ext == nil {
 				ext = x
 			}
-			if x.state == stBlocked {
+			if x.state == stBlocked || x.state == stChan {
 				blocked = true
 			}
 		}
@@ -832,6 +865,15 @@ func (w *WaitGroup) Add(d int) {
 
 func (w *WaitGroup) Done() { w.Add(-1) }
 
+// Go mirrors sync.WaitGroup.Go (Go 1.25).
+func (w *WaitGroup) Go(f func()) {
+	w.Add(1)
+	Go(func() {
+		defer w.Done()
+		f()
+	})
+}
+
 func (w *WaitGroup) Wait() {
 	s := active
 	if s == nil || s.cur == nil {
@@ -943,3 +985,325 @@ func BoltTx(write bool, f func() error) error {
 // BoltTxLimit is the wall-clock time a single bbolt transaction may take
 // before the run is declared wedged.
 var BoltTxLimit = 8 * time.Second
+
+// ---------------------------------------------------------------- Cond
+
+// Cond replaces sync.Cond.  Wait releases L, parks the task until Signal or
+// Broadcast, and re-acquires L, all at scheduling points the simulator owns.
+type Cond struct {
+	L       sync.Locker
+	real    *sync.Cond
+	waiters []*Task
+}
+
+// NewCond replaces sync.NewCond.
+func NewCond(l sync.Locker) *Cond { return &Cond{L: l, real: sync.NewCond(l)} }
+
+func (c *Cond) Wait() {
+	s := active
+	if s == nil || s.cur == nil {
+		c.real.Wait()
+		return
+	}
+	if s.aborted {
+		return
+	}
+	t := s.cur
+	c.waiters = append(c.waiters, t)
+	c.L.Unlock()
+	s.block(t, lockName(c))
+	c.L.Lock()
+}
+
+func (c *Cond) Signal() {
+	s := active
+	if s == nil || s.cur == nil {
+		c.real.Signal()
+		return
+	}
+	for len(c.waiters) > 0 {
+		w := c.waiters[0]
+		c.waiters = c.waiters[1:]
+		if w.state == stBlocked {
+			w.state = stRunnable
+			break
+		}
+	}
+	s.point(KLock, "Cond.Signal")
+}
+
+func (c *Cond) Broadcast() {
+	s := active
+	if s == nil || s.cur == nil {
+		c.real.Broadcast()
+		return
+	}
+	for _, w := range c.waiters {
+		if w.state == stBlocked {
+			w.state = stRunnable
+		}
+	}
+	c.waiters = nil
+	s.point(KLock, "Cond.Broadcast")
+}
+
+// ---------------------------------------------------------------- channels (fallback)
+//
+// The code under test uses no channels today.  Should a change introduce
+// them, the instrumenter brackets every channel operation with ChanBegin and
+// ChanEnd instead of refusing the tree.  The operation itself stays a real Go
+// channel operation.  A watcher goroutine holds the baton meanwhile: it waits
+// until the task has either left the operation (ChanEnd) or is parked inside
+// the Go runtime ("chan receive", "chan send", "select" in the goroutine
+// dump), lets every task the operation released run up to its own ChanEnd,
+// and only then makes the next scheduling decision.  All tasks other than the
+// one operating are parked, so the outcome is as repeatable as the rest of a
+// run; only channels fed from outside the task set (timers, library
+// goroutines) complete at wall-clock instants.
+
+// ChanIdleLimit is how long the scheduler waits (wall clock) for a task
+// parked in a channel operation to be released from outside the task set
+// before the run is declared deadlocked.
+var ChanIdleLimit = 2 * time.Second
+
+// chanSettleLimit bounds the wait for one goroutine to finish or park.
+var chanSettleLimit = 8 * time.Second
+
+func curGID() int64 {
+	var buf [64]byte
+	n := runtime.Stack(buf[:], false)
+	// "goroutine 123 [running]:"
+	f := bytes.Fields(buf[:n])
+	if len(f) < 2 {
+		return -1
+	}
+	id, _ := strconv.ParseInt(string(f[1]), 10, 64)
+	return id
+}
+
+// gstatus returns the wait reason of a goroutine as printed by the runtime
+// ("running", "runnable", "chan receive", "select", ...).
+func gstatus(gid int64) string {
+	buf := make([]byte, 1<<16)
+	for {
+		n := runtime.Stack(buf, true)
+		if n < len(buf) {
+			buf = buf[:n]
+			break
+		}
+		buf = make([]byte, 2*len(buf))
+	}
+	needle := []byte("goroutine " + strconv.FormatInt(gid, 10) + " [")
+	for off := 0; off < len(buf); {
+		i := bytes.Index(buf[off:], needle)
+		if i < 0 {
+			return ""
+		}
+		i += off
+		if i == 0 || buf[i-1] == '\n' {
+			rest := buf[i+len(needle):]
+			if j := bytes.IndexByte(rest, ']'); j >= 0 {
+				return string(rest[:j])
+			}
+			return ""
+		}
+		off = i + 1
+	}
+	return ""
+}
+
+func parkedInChan(st string) bool {
+	return strings.HasPrefix(st, "chan receive") || strings.HasPrefix(st, "chan send") || strings.HasPrefix(st, "select")
+}
+
+// promoteChan makes tasks that have left their channel operation runnable.
+func (s *Sim) promoteChan() {
+	for _, x := range s.tasks {
+		if x.state == stChan && atomic.LoadInt32(&x.chanEnd) == 1 {
+			x.state = stRunnable
+			x.blockedOn = ""
+		}
+	}
+}
+
+// settle waits until x has left its channel operation or is parked in it.
+// It reports false when neither happens within chanSettleLimit.
+func (s *Sim) settle(x *Task) bool {
+	deadline := time.Now().Add(chanSettleLimit)
+	for spins := 0; ; spins++ {
+		if atomic.LoadInt32(&x.chanEnd) == 1 {
+			x.state = stRunnable
+			x.blockedOn = ""
+			return true
+		}
+		if parkedInChan(gstatus(x.gid)) {
+			if atomic.LoadInt32(&x.chanEnd) == 1 { // parked on its baton channel, not in the operation
+				continue
+			}
+			return true
+		}
+		if time.Now().After(deadline) {
+			return false
+		}
+		if spins < 50 {
+			runtime.Gosched()
+		} else {
+			time.Sleep(50 * time.Microsecond)
+		}
+	}
+}
+
+// waitChan is called when no task is runnable: tasks parked in channel
+// operations may still be released from outside the task set (a timer).  It
+// returns such a task once it has left its operation, or nil.
+func (s *Sim) waitChan() *Task {
+	any := false
+	for _, x := range s.tasks {
+		if x.state == stChan {
+			any = true
+		}
+	}
+	if !any {
+		return nil
+	}
+	deadline := time.Now().Add(ChanIdleLimit)
+	for {
+		for _, x := range s.tasks {
+			if x.state == stChan && atomic.LoadInt32(&x.chanEnd) == 1 {
+				x.state = stRunnable
+				x.blockedOn = ""
+				return x
+			}
+		}
+		if time.Now().After(deadline) {
+			return nil
+		}
+		time.Sleep(100 * time.Microsecond)
+	}
+}
+
+// ChanBegin is inserted before a channel operation of the code under test.
+func ChanBegin(site string) {
+	s := active
+	if s == nil || s.cur == nil || s.aborted {
+		return
+	}
+	t := s.cur
+	if t.gid != curGID() {
+		return // on a helper goroutine (inside a bolt transaction): not a scheduling matter
+	}
+	s.ChanOps++
+	s.steps++
+	t.idx++
+	atomic.StoreInt32(&t.chanEnd, 0)
+	t.state = stChan
+	t.blockedOn = site
+	go s.watch(t, site)
+}
+
+// ChanEnd is inserted after the operation (and at the head of every select clause).
+func ChanEnd() {
+	s := active
+	if s == nil {
+		return
+	}
+	s.gidMu.Lock()
+	t := s.byGID[curGID()]
+	s.gidMu.Unlock()
+	if t == nil || t.state == stDone || atomic.LoadInt32(&t.chanEnd) == 1 {
+		return
+	}
+	if t.state != stChan {
+		return
+	}
+	atomic.StoreInt32(&t.chanEnd, 1)
+	<-t.wake
+	if s.aborted {
+		panic(abortSentinel)
+	}
+}
+
+// watch holds the baton while t is inside a channel operation.
+func (s *Sim) watch(t *Task, site string) {
+	ok := s.settle(t)
+	if ok {
+		for _, x := range s.tasks {
+			if x != t && x.state == stChan {
+				if !s.settle(x) {
+					ok = false
+				}
+			}
+		}
+	}
+	var next *Task
+	func() {
+		defer func() {
+			if r := recover(); r != nil && !IsAbort(r) {
+				panic(r)
+			}
+		}()
+		if !ok {
+			s.abortNow("wedged", "a goroutine neither finished nor parked in its channel operation at "+site)
+		}
+		if s.steps > s.budget {
+			s.abortNow("step-budget", fmt.Sprintf("task %d at %s after %d steps", t.ID, site, s.steps))
+		}
+		if t.state == stRunnable {
+			next = s.decide(t, KIO)
+			if next == nil {
+				next = t
+			}
+		} else {
+			next = s.pick(t)
+			if next == nil {
+				next = s.noRunnable()
+			}
+		}
+	}()
+	if s.aborted {
+		// tear down from here: the chain in exit() releases the parked tasks one by one
+		for _, x := range s.tasks {
+			if x.state == stChan && atomic.LoadInt32(&x.chanEnd) == 0 {
+				x.state = stDone
+			}
+		}
+		for _, x := range s.tasks {
+			if x.state != stDone {
+				s.cur = x
+				x.state = stRunnable
+				x.wake <- struct{}{}
+				return
+			}
+		}
+		close(s.done)
+		return
+	}
+	if next != t {
+		s.note(t, next, KBlock, site)
+	}
+	s.cur = next
+	next.wake <- struct{}{}
+}
+
+// Recv replaces a receive expression.
+func Recv[T any](site string, ch <-chan T) T {
+	ChanBegin(site)
+	v := <-ch
+	ChanEnd()
+	return v
+}
+
+// Recv2 replaces the two-valued receive.
+func Recv2[T any](site string, ch <-chan T) (T, bool) {
+	ChanBegin(site)
+	v, ok := <-ch
+	ChanEnd()
+	return v, ok
+}
+
+// Close replaces the close built-in (closing releases every receiver).
+func Close[T any](site string, ch chan<- T) {
+	ChanBegin(site)
+	close(ch)
+	ChanEnd()
+}
